@@ -23,7 +23,10 @@ CLAIM = dict(
          "a stray percent sign, via a decoder re-synchronisation argument; under the same guard uri_to_iri(iri_to_uri(s)) is "
          "uri_to_iri(s) up to the component's reserved characters), and of get_current_url (the URI re-splits into the scheme, host, "
          "quoted root/path and query it was built from; its path decodes to the given root and path when they hold no percent sign, "
-         "refuted otherwise; the host_only / root_only / strip_querystring conditions of wsgi.get_current_url are regenerated). Safe sets, protected tables and the statement skeletons are "
+         "refuted otherwise; the host_only / root_only / strip_querystring conditions of wsgi.get_current_url are regenerated), and of "
+         "EnvironBuilder.__init__ / get_environ composed with Request into one theorem (for every Unicode root, path and query pairs the "
+         "request reads back exactly that path, root, pairs -- C02's urlencode round trip -- and host, and rebuilds the URL from them). "
+         "DispatcherMiddleware's loop is now translated from the AST into the Gallina fixpoint the theorem is about. Safe sets, protected tables and the statement skeletons are "
          "regenerated from the source on every run; the models are compared with werkzeug and urllib on ~110k cases per quick run "
          "and the EnvironBuilder -> Request round trip is exercised end to end (values given through the constructor or assigned to "
          "path / script_root / base_url afterwards; hosts ending in digits with explicit default ports; SERVER_NAME fallback).",
@@ -194,6 +197,67 @@ def _default_port_rules(fn: ast.FunctionDef):
     return rules
 
 
+def _dispatch_loop(fn: ast.FunctionDef) -> str:
+    """T2/T3: DispatcherMiddleware.__call__'s `while ... else` loop -> the Gallina fixpoint dispatch_loop.
+    Statement vocabulary: `while <c> in script:`, `if script in self.mounts: app = self.mounts[script]; break`,
+    `script, last_item = script.rsplit(<c>, 1)`, `path_info = f"...{last_item}...{path_info}..."`,
+    `else: app = self.mounts.get(script, self.app)`.  Anything else stops the translator."""
+    body = _body(fn)
+    loops = [st for st in body if isinstance(st, ast.While)]
+    if len(loops) != 1 or [ast.unparse(x) for x in body[:body.index(loops[0])]] != ["script = environ.get('PATH_INFO', '')", "path_info = ''"]:
+        raise px.Unsupported("DispatcherMiddleware.__call__: the loop is not preceded by exactly `script = PATH_INFO; path_info = ''`")
+    w = loops[0]
+
+    def one_char(n, what):
+        if not (isinstance(n, ast.Constant) and isinstance(n.value, str) and len(n.value) == 1):
+            raise px.Unsupported(f"DispatcherMiddleware.__call__: {what} is not a one-character literal")
+        return ord(n.value)
+    t = w.test
+    if not (isinstance(t, ast.Compare) and len(t.ops) == 1 and isinstance(t.ops[0], ast.In) and _name(t.comparators[0], "script")):
+        raise px.Unsupported(f"DispatcherMiddleware.__call__: loop test not recognised: {ast.unparse(t)}")
+    sep_in = one_char(t.left, "the loop test's separator")
+    if len(w.body) != 3 or len(w.orelse) != 1:
+        raise px.Unsupported("DispatcherMiddleware.__call__: loop body / else shape changed")
+    hit, split, rebuild = w.body
+    if not (isinstance(hit, ast.If) and ast.unparse(hit.test) == "script in self.mounts" and not hit.orelse
+            and [ast.unparse(x) for x in hit.body] == ["app = self.mounts[script]", "break"]):
+        raise px.Unsupported(f"DispatcherMiddleware.__call__: mount test not recognised: {ast.unparse(hit)}")
+    if not (isinstance(split, ast.Assign) and ast.unparse(split.targets[0]) == "(script, last_item)" and isinstance(split.value, ast.Call)
+            and ast.unparse(split.value.func) == "script.rsplit" and len(split.value.args) == 2 and not split.value.keywords
+            and isinstance(split.value.args[1], ast.Constant) and split.value.args[1].value == 1):
+        raise px.Unsupported(f"DispatcherMiddleware.__call__: `script, last_item = script.rsplit(c, 1)` not recognised: {ast.unparse(split)}")
+    sep_split = one_char(split.value.args[0], "rsplit's separator")
+    if not (isinstance(rebuild, ast.Assign) and ast.unparse(rebuild.targets[0]) == "path_info" and isinstance(rebuild.value, ast.JoinedStr)):
+        raise px.Unsupported(f"DispatcherMiddleware.__call__: path_info rebuild not recognised: {ast.unparse(rebuild)}")
+    pieces = []
+    for v in rebuild.value.values:
+        if isinstance(v, ast.Constant) and isinstance(v.value, str):
+            pieces.append(_codes(v.value))
+        elif (isinstance(v, ast.FormattedValue) and v.conversion == -1 and v.format_spec is None
+              and isinstance(v.value, ast.Name) and v.value.id in ("last_item", "path_info")):
+            pieces.append(v.value.id)
+        else:
+            raise px.Unsupported(f"DispatcherMiddleware.__call__: f-string piece not recognised: {ast.unparse(rebuild)}")
+    if ast.unparse(w.orelse[0]) != "app = self.mounts.get(script, self.app)":
+        raise px.Unsupported(f"DispatcherMiddleware.__call__: else branch not recognised: {ast.unparse(w.orelse[0])}")
+    tail = [ast.unparse(x) for x in body[body.index(w) + 1:]]
+    if tail != ["original_script_name = environ.get('SCRIPT_NAME', '')", "environ['SCRIPT_NAME'] = original_script_name + script",
+                "environ['PATH_INFO'] = path_info", "return app(environ, start_response)"]:
+        raise px.Unsupported("DispatcherMiddleware.__call__: the statements after the loop changed")
+    return (
+        "(* GENERATED by tools/c15.py from the while/else loop of DispatcherMiddleware.__call__ on every run - do not edit *)\n"
+        "From Wz Require Import lib.Bytes C15.LibPercent C15.DispatchBase.\nOpen Scope N_scope.\n\n"
+        "Fixpoint dispatch_loop (fuel : nat) (mounts : list (str * N)) (default : N) (script path_info : str) : dres :=\n"
+        "  match fuel with\n  | O => DOutOfFuel\n  | S f =>\n"
+        f"      if mem {sep_in} script then\n"
+        "        match lookup script mounts with\n        | Some a => DOk a script path_info\n        | None =>\n"
+        f"            match rsplit1 {sep_split} script with\n"
+        "            | Some (script', last_item) =>\n"
+        f"                dispatch_loop f mounts default script' ({' ++ '.join(pieces)})\n"
+        "            | None => DUnpackError\n            end\n        end\n"
+        "      else DOk (match lookup script mounts with Some a => a | None => default end) script path_info\n  end.\n")
+
+
 def _flag_expr(node: ast.expr, flags: tuple[str, ...]) -> str:
     """T2: a condition over boolean parameters -> Gallina"""
     if isinstance(node, ast.Name) and node.id in flags:
@@ -360,9 +424,52 @@ def gen() -> None:
     sfull = px.find_def(px.find_class(px.load("sansio/request.py"), "Request"), "full_path")
     _pin(sfull, ["return f\"{self.path}?{self.query_string.decode(errors='replace')}\""], "sansio Request.full_path", ["self"])
 
+    # ---- test.EnvironBuilder: the statements the builder model (coq/C15/BuilderModel.v) was written for
+    eb = px.find_class(px.load("test.py"), "EnvironBuilder")
+    eb_init = [ast.unparse(x) for x in _body(px.find_def(eb, "__init__"))[:8]]
+    want_init = [
+        "if query_string is not None and '?' in path:\n    raise ValueError('Query string is defined in the path and as an argument')",
+        "request_uri = urlsplit(path)",
+        "if query_string is None and '?' in path:\n    query_string = request_uri.query",
+        "self.path = iri_to_uri(request_uri.path)",
+        "self.request_uri = path",
+        "if base_url is not None:\n    base_url = iri_to_uri(base_url)",
+        "self.base_url = base_url",
+        "if isinstance(query_string, str):\n    self.query_string = query_string\nelse:\n    if query_string is None:\n"
+        "        query_string = MultiDict()\n    elif not isinstance(query_string, MultiDict):\n"
+        "        query_string = MultiDict(query_string)\n    self.args = query_string",
+    ]
+    if eb_init != want_init:
+        for g, w in zip(eb_init, want_init):
+            if g != w:
+                raise px.Unsupported(f"EnvironBuilder.__init__: statement `{g}`, the model was written for `{w}`")
+        raise px.Unsupported("EnvironBuilder.__init__: statement count changed")
+    ge_text = [ast.unparse(x) for x in ast.walk(px.find_def(eb, "get_environ")) if isinstance(x, (ast.FunctionDef, ast.Dict))]
+    if "def _path_encode(x: str) -> str:\n    return _wsgi_encoding_dance(unquote(x))" not in ge_text:
+        raise px.Unsupported("EnvironBuilder.get_environ: _path_encode is no longer _wsgi_encoding_dance(unquote(x))")
+    entries = None
+    for x in ast.walk(px.find_def(eb, "get_environ")):
+        if isinstance(x, ast.Dict) and any(isinstance(k, ast.Constant) and k.value == "PATH_INFO" for k in x.keys):
+            entries = {k.value: ast.unparse(v) for k, v in zip(x.keys, x.values) if isinstance(k, ast.Constant)}
+    want_entries = {"SCRIPT_NAME": "_path_encode(self.script_root)", "PATH_INFO": "_path_encode(self.path)",
+                    "QUERY_STRING": "_wsgi_encoding_dance(self.query_string)", "HTTP_HOST": "self.host",
+                    "SERVER_NAME": "self.server_name", "SERVER_PORT": "str(self.server_port)", "wsgi.url_scheme": "self.url_scheme"}
+    if entries is None:
+        raise px.Unsupported("EnvironBuilder.get_environ: the environ dict was not found")
+    for k, w in want_entries.items():
+        if entries.get(k) != w:
+            raise px.Unsupported(f"EnvironBuilder.get_environ: {k!r}: {entries.get(k)}, the model was written for {w}")
+    setter = [n for n in eb.body if isinstance(n, ast.FunctionDef) and n.name == "base_url" and any(ast.unparse(d) == "base_url.setter" for d in n.decorator_list)]
+    if len(setter) != 1 or [ast.unparse(x) for x in setter[0].body[-3:]] != ["self.script_root = script_root.rstrip('/')", "self.host = netloc", "self.url_scheme = scheme"]:
+        raise px.Unsupported("EnvironBuilder.base_url setter: script_root / host / url_scheme assignment changed")
+    qsp = [n for n in eb.body if isinstance(n, ast.FunctionDef) and n.name == "query_string" and any(ast.unparse(d) == "property" for d in n.decorator_list)]
+    if len(qsp) != 1 or "return _urlencode(self._args)" not in ast.unparse(qsp[0]):
+        raise px.Unsupported("EnvironBuilder.query_string: no longer _urlencode(self._args)")
+
     # ---- DispatcherMiddleware.__call__
     cls = px.find_class(disp, "DispatcherMiddleware")
-    _pin(px.find_def(cls, "__call__"), DISPATCH_CALL, "DispatcherMiddleware.__call__", ["self", "environ", "start_response"])
+    dispatch_text = _dispatch_loop(px.find_def(cls, "__call__"))
+    px.write_if_changed(os.path.join(COQ, "C15", "GenDispatch.v"), dispatch_text)
     _pin(px.find_def(cls, "__init__"), ["self.app = app", "self.mounts = mounts or {}"], "DispatcherMiddleware.__init__", ["self", "app", "mounts"])
 
     EXTRACTED.clear()
@@ -805,7 +912,7 @@ def run(chk: Check) -> None:
     _dispatch(chk, DispatcherMiddleware, add, quick, corpus)
 
     # ------------------------------------------------ EnvironBuilder -> Request, end to end
-    _e2e(chk, quick, corpus)
+    _e2e(chk, quick, corpus, add)
     _raw_query(chk, quick, corpus)
 
     # ------------------------------------------------ model side
@@ -924,7 +1031,7 @@ def _escape_for_builder(p: str) -> str:
     return "".join(out)
 
 
-def _e2e(chk, quick, corpus) -> None:
+def _e2e(chk, quick, corpus, add) -> None:
     from werkzeug.test import EnvironBuilder
     from werkzeug.wrappers import Request
     from werkzeug.wsgi import get_current_url as wsgi_current_url
@@ -993,6 +1100,11 @@ def _e2e(chk, quick, corpus) -> None:
             chk.fail("environ-roundtrip-raises", f"{type(e).__name__}: {e}", inp)
             continue
         bs = up.urlsplit(base)
+        if mode == "ctor" and "\ud800" not in p + "".join(k + v for k, v in q.items()):
+            # the builder model: SCRIPT_NAME / PATH_INFO / QUERY_STRING from the path components and the pairs
+            add("benv " + cps(bs.scheme) + " " + cps(bs.netloc) + " " + cps(bs.path) + " " + cps(_escape_for_builder(p))
+                + "".join(f" {cps(k)}={cps(v)}" for k, v in q.items()),
+                f"ok {cps(env['SCRIPT_NAME'])} {cps(env['PATH_INFO'])} {cps(env['QUERY_STRING'])}")
         want_root = up.unquote(bs.path).rstrip("/")
         if got_path != p:
             chk.fail("request-path", f"Request.path = {got_path!r}", inp)
@@ -1130,7 +1242,7 @@ def main(chk: Check) -> None:
     except px.Unsupported as e:
         chk.broken("translator", "C15/Gen.v", str(e))
     chk.forbidden_scan()
-    if chk.coq_make(["C15/Proofs.vo", "C15/Fixpoint.vo", "C15/Extract.vo"]):
+    if chk.coq_make(["C15/GenDispatch.vo", "C15/Proofs.vo", "C15/Fixpoint.vo", "C15/Builder.vo", "C15/Extract.vo"]):
         chk.audit_props("C15/Props.v")
     else:
         chk.cov["obligations"] += 1
@@ -1145,7 +1257,9 @@ def main(chk: Check) -> None:
         "whole URLs are split and reassembled by the interpreter around the modelled component functions",
         "UTF-8 / latin-1 codec models lib/Utf8.v",
         "extraction ExtrOcamlBasic + tools/conv.ml + coq/C15/driver.ml, OCaml 4.13.1",
-        "EnvironBuilder, Request and wsgi.get_current_url glue: exercised end to end by the harness, not modelled",
+        "EnvironBuilder: urlsplit of the path argument and of iri_to_uri(base_url), IDNA, SERVER_NAME / SERVER_PORT and the non-URL environ "
+        "entries are outside the builder model (exercised end to end); the builder statements the model was written for are pinned",
+        "C02's urlencode / parse_qsl model and its lemmas urlencoded_roundtrip / urlencode_ascii (coq/C02/Model.v, Proofs.v) are imported, not re-modelled",
     ]
     try:
         run(chk)
